@@ -28,7 +28,7 @@ def run(tier):
     if not nv.violated:
         raise common.ToolError("Engine.tla: the MergeNoRewind mutant is not caught\n" + nv.out[-1500:])
     for fam, w in fams:
-        vecs, st = engine.generate(fam, w, 16, wd)
+        vecs, st = engine.generate(fam, w, 16, wd, timeout=1500 if tier == "quick" else 3600)
         total += len(vecs)
         engine.replay(vd, vecs, bdir, wd, PID, check_illformed=False)
         vd.notes.setdefault("families", {})[fam] = dict(st, vectors=len(vecs), weight=w)
